@@ -50,8 +50,18 @@
                            with a NULL item the data lines are always produced; line i splits
                            into row i of the token matrix; the flat token list of the wrapped
                            lines is the flat token list of the unwrapped ones;
-     C01_data_roundtrip    (composition) for the written lines rts, with any line terminator
-                           eol that strip() removes ([] and "\n" are instances):
+     C01_clean_line_of_tokens, C01_subs_local
+                           a physical line is `clean` (no '#', no double or single quote, no
+                           chr 26, none of the three read substitutions comma-decimal-mark,
+                           run-on(-), run-on(.) matches anywhere in the stripped line) as soon
+                           as each of its str.split() fields is: white space carries none of
+                           these characters, and the three patterns AS TRANSLATED FROM THE
+                           SOURCE TODAY (Gen/Regexes.v) consist of classes of non-space
+                           characters only, without look-around or anchor, so no match can
+                           extend across white space (Proofs/RegexLocalFacts.v nomatch_tokens);
+     C01_data_roundtrip    (composition; hypotheses on the OPTIONS and the TOKENS only) for
+                           the written lines rts, with any line terminator eol that strip()
+                           removes ([] and "\n" are instances):
                            UNWRAPPED  numpy_engine and normal_engine (every substitution list,
                            column count c) return the same columns `cols`, and
                            inspect_data_section (twice) sniffs c;
@@ -60,16 +70,17 @@
                            cols has c columns, each with r cells, and column j is
                            [mk_num (tok 0 j); mk_num (tok 1 j); ...]: same number of curves, same
                            order, same number of rows, the token read back is the token written;
-     C01_roundtrip_cell    the same cell by cell: cols[j][i] = mk_num (field_tok ... rows[i][j]).
-   Hypotheses of C01_data_roundtrip (the domain; all decidable, checked by the harness):
-     * every tok i j is non-empty, white-space-free and float() accepts it (num_tok);
-     * lhs_spacer and spacer consist of white space; every row is `separated`;
-     * every PHYSICAL line handed to the reader is `clean` (clean_lineb, the character and
-       substitution clauses of C02's dom2_lineb): no '#', no double or single quote, no chr 26, and none of the
-       three read substitutions (comma-decimal-mark, run-on(-), run-on(.)) matches anywhere
-       in the stripped line (nomatchb = re.search is None).  This is a hypothesis on the
-       produced lines, NOT derived from the shape of numeric tokens (a per-pattern "cannot match
-       inside  digits[.digits][e+-dd]  tokens separated by blanks" lemma is not proved).
+     C01_data_roundtrip_lines  the same with the cleanliness asked of the produced physical
+                           lines (clean_lineb) instead of the tokens;
+     C01_roundtrip_cell    cell by cell: cols[j][i] = mk_num (field_tok ... rows[i][j]).
+   Hypotheses of C01_data_roundtrip (the domain; all decidable: wr_tokb, separatedb):
+     * every tok i j is non-empty, white-space-free, float() accepts it (num_tok) and it is
+       clean: no '#', quote, chr 26, and none of the three substitution patterns matches
+       inside it (clean_tokb).  This is what one expects of the text a numeric % format
+       prints (digits, at most one '.', a sign only in front or after the 'e') and of a
+       numeric NULL text, but fmtv and nt are uninterpreted here, so it is a hypothesis;
+     * lhs_spacer and spacer consist of white space; every row is `separated` (the clause
+       the harness's in_domain checks on every generated case).
    Not proved here / partial with respect to the property text:
      * the composition is stated on the data lines (Writer.row_text / TextWrap.wrap ->
        DataRead engines), not on Model/Read.v read (Model/Writer.v write ...): that the reader
@@ -85,7 +96,7 @@
 From Coq Require Import List NArith Bool String.
 Import ListNotations.
 Require Import PyStr Regex Regexes NumLit TextWrap DataRead Writer.
-Require Import RegexSubFacts SplitWsFacts TextWrapProofs DataReadProofs WriteDataProofs.
+Require Import RegexSubFacts RegexLocalFacts SplitWsFacts TextWrapProofs DataReadProofs WriteDataProofs.
 Open Scope string_scope.
 Open Scope list_scope.
 
@@ -183,7 +194,7 @@ Theorem C01_wrapped_tokens : forall (w : nat) (rts : list (list N)),
   List.concat (map split_ws (flat_map (TextWrap.wrap w) rts)) = List.concat (map split_ws rts).
 Proof. exact wrapped_tokens. Qed.
 
-Theorem C01_data_roundtrip :
+Theorem C01_data_roundtrip_lines :
   forall fmtv fmt_pi fhex fstr o nt subs (rows : list (list cell)) c rts eol,
   (0 < c)%nat -> rows <> [] ->
   Forall (fun row : list cell => List.length row = c) rows ->
@@ -207,6 +218,46 @@ Theorem C01_data_roundtrip :
     nth j cols [] = map (fun toks => mk_num fhex (nth j toks [])) T /\
     List.length (nth j cols []) = List.length rows.
 Proof. exact data_roundtrip. Qed.
+
+(* cleanliness of a line from its tokens *)
+Theorem C01_clean_line_of_tokens : forall raw : list N,
+  Forall (fun t => clean_tokb t = true) (split_ws raw) -> clean_lineb raw = true.
+Proof. exact clean_line_of_tokens. Qed.
+
+Theorem C01_subs_local :
+  (re_local rx_sub_comma = true /\ nomatchb rx_sub_comma [] [] = true) /\
+  (re_local rx_sub_runon_minus = true /\ nomatchb rx_sub_runon_minus [] [] = true) /\
+  (re_local rx_sub_runon_dot = true /\ nomatchb rx_sub_runon_dot [] [] = true).
+Proof. exact subs_are_local. Qed.
+
+Theorem C01_nomatch_tokens : forall r (line : list N),
+  re_local r = true -> nomatchb r [] [] = true ->
+  (forall t, In t (split_ws line) -> nomatchb r [] t = true) ->
+  nomatchb r [] line = true.
+Proof. exact nomatch_tokens. Qed.
+
+Theorem C01_data_roundtrip :
+  forall fmtv fmt_pi fhex fstr o nt subs (rows : list (list cell)) c rts eol,
+  (0 < c)%nat -> rows <> [] ->
+  Forall (fun row : list cell => List.length row = c) rows ->
+  let T := tok_matrix fmtv o nt rows in
+  Forall (Forall (wr_tok fhex)) T ->
+  forallb is_space (wo_lhs_spacer o) = true -> forallb is_space (wo_spacer o) = true ->
+  Forall (separated fmt_pi o) T ->
+  forallb is_space eol = true ->
+  opt_all (map (row_text fmtv fmt_pi o (Some nt) 0) rows) = Some rts ->
+  let cols := map (map (mk_num fhex)) (transpose_n c T) in
+  let body := map (fun l => l ++ eol) rts in
+  (numpy_engine fhex body = Some cols /\
+   normal_engine fhex fstr DSpace subs c body = DOk cols /\
+   fst (inspect_twice DSpace body subs) = Some c) /\
+  (forall w, normal_engine fhex fstr DSpace subs c
+               (map (fun l => l ++ eol) (flat_map (TextWrap.wrap w) rts)) = DOk cols) /\
+  List.length cols = c /\
+  forall j, (j < c)%nat ->
+    nth j cols [] = map (fun toks => mk_num fhex (nth j toks [])) T /\
+    List.length (nth j cols []) = List.length rows.
+Proof. exact data_roundtrip_tokens. Qed.
 
 Theorem C01_roundtrip_cell : forall fmtv fhex o nt (rows : list (list cell)) c i j row cell,
   (j < c)%nat -> nth_error rows i = Some row -> nth_error row j = Some cell ->
@@ -265,6 +316,7 @@ Proof. split; vm_compute; reflexivity. Qed.
 (* every hypothesis of C01_data_roundtrip holds for ex_o (spacer-separated) ... *)
 Example C01_ex_hyps :
   (0 < 4)%nat /\ ex_rows <> [] /\ Forall (fun row : list cell => List.length row = 4%nat) ex_rows /\
+  Forall (Forall (wr_tok ex_fhex)) (tok_matrix ex_fmtv ex_o ex_nt ex_rows) /\
   Forall (Forall (num_tok ex_fhex)) (tok_matrix ex_fmtv ex_o ex_nt ex_rows) /\
   forallb is_space (wo_lhs_spacer ex_o) = true /\ forallb is_space (wo_spacer ex_o) = true /\
   Forall (separated ex_fmt_pi ex_o) (tok_matrix ex_fmtv ex_o ex_nt ex_rows) /\
@@ -274,6 +326,7 @@ Example C01_ex_hyps :
          (map (fun l => l ++ [10%N]) (flat_map (TextWrap.wrap 24) (ex_rts ex_o))).
 Proof.
   split; [repeat constructor|]. split; [discriminate|]. split; [repeat constructor|].
+  split; [apply wr_tok_matrixb; vm_compute; reflexivity|].
   split; [apply num_tok_matrixb; vm_compute; reflexivity|].
   split; [reflexivity|]. split; [reflexivity|].
   split; [apply separated_matrixb; vm_compute; reflexivity|].
@@ -284,11 +337,11 @@ Qed.
 (* ... and for ex_o2, where only the right-justification separates the fields *)
 Example C01_ex_hyps2 :
   Forall (separated ex_fmt_pi ex_o2) (tok_matrix ex_fmtv ex_o2 ex_nt ex_rows) /\
-  Forall (Forall (num_tok ex_fhex)) (tok_matrix ex_fmtv ex_o2 ex_nt ex_rows) /\
+  Forall (Forall (wr_tok ex_fhex)) (tok_matrix ex_fmtv ex_o2 ex_nt ex_rows) /\
   Forall (fun raw => clean_lineb raw = true) (map (fun l => l ++ [10%N]) (ex_rts ex_o2)).
 Proof.
   split; [apply separated_matrixb; vm_compute; reflexivity|].
-  split; [apply num_tok_matrixb; vm_compute; reflexivity|].
+  split; [apply wr_tok_matrixb; vm_compute; reflexivity|].
   apply Forall_forall; apply forallb_forall; vm_compute; reflexivity.
 Qed.
 
@@ -313,7 +366,9 @@ Example C01_ex_outside :
   [ [s2l "100.5"; s2l "2.5"; s2l "-999.25"; s2l "-1e-05"];
     [s2l "101.0"; s2l "-999.25"; s2l "-312345.678"] ] /\
   map clean_lineb [s2l "1.5 2-3"; s2l "1,5 2"; s2l "1.2.3 4"; s2l "1 2 #c"; s2l "1.5 -2e-05 3"]
-  = [false; false; false; false; true].
+  = [false; false; false; false; true] /\
+  map clean_tokb [s2l "2-3"; s2l "1,5"; s2l "1.2.3"; s2l "NaN.5"; s2l "#c"; s2l "-2e-05"; s2l "-999.25"; s2l "nan"]
+  = [false; false; false; false; false; true; true; true].
 Proof. repeat split; vm_compute; reflexivity. Qed.
 
 Print Assumptions C01_padded_tokens.
@@ -330,6 +385,10 @@ Print Assumptions C01_tok_matrix_nth.
 Print Assumptions C01_lines_defined.
 Print Assumptions C01_lines_tokens.
 Print Assumptions C01_wrapped_tokens.
+Print Assumptions C01_clean_line_of_tokens.
+Print Assumptions C01_subs_local.
+Print Assumptions C01_nomatch_tokens.
 Print Assumptions C01_data_roundtrip.
+Print Assumptions C01_data_roundtrip_lines.
 Print Assumptions C01_roundtrip_cell.
 Print Assumptions C01_clean_is_dom2.
